@@ -53,6 +53,18 @@ func main() {
 		loopMode(args)
 	case "attrs":
 		attrsMode(args)
+	case "url":
+		urlMode(args)
+	case "style":
+		styleMode(args)
+	case "fn":
+		fnMode(args)
+	case "dump":
+		dumpMode(args)
+	case "entry":
+		entryMode(args)
+	case "rw":
+		rwMode(args)
 	default:
 		fmt.Fprintln(os.Stderr, "unknown subcommand", cmd)
 		os.Exit(2)
